@@ -428,7 +428,7 @@ def State.doColor (s : State) : State :=
     | _ => s.emit (.warn "unknown location")
   | .operand .matrix =>
     match s.matrix with
-    | none => s.fault "no matrix"
+    | none => s      -- the target is unknown or has no matrix: nothing to stage into
     | some m =>
       match normAxis (s.regs .firstRow) (s.regs .lastRow) m.height,
             normAxis (s.regs .firstColumn) (s.regs .lastColumn) m.width with
@@ -821,8 +821,8 @@ def execInstr (img : Image) (s : State) (i : Instr) : State :=
     | some l =>
       match l.kind with
       | .matrix h w => { s with matrix := some ⟨h, w, []⟩ }
-      | _ => { (s.emit (.warn "not matrix type")) with matrix := some ⟨255, 255, []⟩ }
-    | none => { (s.emit (.warn "light not found")) with matrix := some ⟨255, 255, []⟩ }
+      | _ => { (s.emit (.warn "not matrix type")) with matrix := none }
+    | none => { (s.emit (.warn "light not found")) with matrix := none }
   | .wait =>
     match s.regs .time with
     | .pat p => s.emit (.waitUntil p)
